@@ -623,6 +623,10 @@ func genCase(c *rig.Ctx, conc bool) Case {
 		cs.Resync = r.Intn(3) == 0
 		cs.G = 2 + r.Intn(31)
 		cs.M = 1 + r.Intn(min(nmax, 400))
+		if r.Intn(2) == 0 {
+			// a total that every k <= 6 divides: then floor = ceil and a single lost or duplicated cursor value shows
+			cs.M = 60 * (1 + r.Intn(max(min(nmax, 400)/60, 1)))
+		}
 		switch r.Intn(4) {
 		case 0:
 			cs.Picks = []int{0, 1, 2}
